@@ -153,16 +153,17 @@ def pointContains (p : Pt) : Geom → Bool
   | .polygon poly => if poly.ext.isEmpty then false else poly.coords.all (· == p)
   | .multiPoint qs => if qs.isEmpty then false else qs.all (· == p)
   | .multiLineString ls =>
-      if ls.all List.isEmpty then false else ls.all (fun cs => if cs.isEmpty then false else cs.all (· == p))
+      -- after the `fix:`: empty members are skipped
+      if ls.all List.isEmpty then false else (ls.filter (fun cs => !cs.isEmpty)).all (fun cs => cs.all (· == p))
   | .multiPolygon ps =>
       if ps.all (·.ext.isEmpty) then false
-      else ps.all (fun poly => if poly.ext.isEmpty then false else poly.coords.all (· == p))
+      else (ps.filter (fun poly => !poly.ext.isEmpty)).all (fun poly => poly.coords.all (· == p))
   | .rect mn mx => mn == mx && mn == p
   | .triangle a b c => a == b && a == c && a == p
-  | .collection gs => if isEmptyList gs then false else pointContainsAll p gs
+  | .collection gs => if dimsList gs == .empty then false else pointContainsAll p gs
 def pointContainsAll (p : Pt) : List Geom → Bool
   | [] => true
-  | g :: gs => pointContains p g && pointContainsAll p gs
+  | g :: gs => (if dims g == .empty then true else pointContains p g) && pointContainsAll p gs
 end
 
 /-- `Geometry: Contains<Geometry>`: the concrete `A: Contains<B>` impl for every pair. -/
